@@ -12,6 +12,11 @@ UPPER = ['ABC', 'XY', 'HEADER', 'Q', 'TOTALS']
 PUNCT = [':', '=', '->', ',', ';', '|', '(', ')', '[', ']', '*', '+', '?',
          '\\', '"', "'", '$', '^', '{', '}']
 
+# characters str.splitlines() treats as line ends but files read in text
+# mode do not: line content for the comparison
+SEPLIKE = ['\x0b', '\x0c', '\x1c', '\x1d', '\x1e', '\x85', '\u2028',
+           '\u2029']
+
 PATTERN_FAMILY = [r'\d{4}', r'\d+', r'[0-9]{4}-[0-9]{2}', r'v\d+\.\d+',
                   r'[A-Z]+', r'^#.*$', r'\d+$', r'^[A-Z]+', r'(\d+)',
                   'LITERAL']
@@ -51,6 +56,9 @@ def gen_line(r, unicode_ok=True):
                      'U': lambda: r.pick(UPPER), 'p': lambda: r.pick(PUNCT),
                      'u': lambda: r.pick(UWORDS)}[t]())
     line = ' '.join(toks)
+    if r.chance(0.04):
+        p = r.randrange(len(line) + 1)
+        line = line[:p] + r.pick(SEPLIKE) + line[p:]
     if r.chance(0.12):
         line = r.pick([' ', '  ', '\t']) + line
     if r.chance(0.12):
@@ -84,7 +92,8 @@ def mutate_lines(r, lines, k=None):
                         (2, 'swap_lines'), (2, 'trailing_space'),
                         (1, 'leading_space'), (1, 'case'), (1, 'version'),
                         (1, 'comment_text'), (1, 'one_char'),
-                        (2, 'swap_and_change'), (1.5, 'space_and_change')])
+                        (2, 'swap_and_change'), (1.5, 'space_and_change'),
+                        (1.5, 'newline_to_sep'), (0.7, 'sep_to_sep')])
         idxs = [i for i, l in enumerate(lines) if l]
         if m in ('digits_same_width', 'digits_other_width'):
             import re
@@ -136,6 +145,23 @@ def mutate_lines(r, lines, k=None):
             lines[i] = r.pick(['', ' ', '\t']) + lines[i] + r.pick(
                 [' ', '  ', '\t'])
             lines[j] = lines[j] + ' ' + r.pick(WORDS)
+        elif m == 'newline_to_sep':
+            # two lines run together with a separator-like character where
+            # the newline was (a flipped bit turns 0x0a into 0x0b)
+            if len(lines) < 2:
+                continue
+            i = r.randrange(len(lines) - 1)
+            lines[i:i + 2] = [lines[i] + r.pick(SEPLIKE) + lines[i + 1]]
+        elif m == 'sep_to_sep':
+            cands = [i for i in idxs if any(c in lines[i] for c in SEPLIKE)]
+            if not cands:
+                continue
+            i = r.pick(cands)
+            for c in SEPLIKE:
+                if c in lines[i]:
+                    lines[i] = lines[i].replace(
+                        c, r.pick([x for x in SEPLIKE if x != c]), 1)
+                    break
         elif m == 'trailing_space':
             if not idxs:
                 continue
